@@ -6,3 +6,4 @@ git -C /repo apply /verif/seeded/$1/patch.diff || exit 2
 ./check $2 ${3:-quick} 2>&1 | grep -E "^VIOLATION|^OK|^KNOWN|\[check\] C" | cut -c1-260
 git -C /repo checkout -- .
 git -C /repo status --short | head -3
+case "$2" in C15|C17|C18|C19) ./check $2 quick >/dev/null 2>&1;; esac  # regenerate the translator table from the clean tree
